@@ -330,11 +330,15 @@ class VCtx:
         return a
 
     def spectrum(self, dims=("pos", "freq", "dir"), name="E", nonneg=True, uniform_dir=False,
-                 freq_positive=True, min_nf=1, min_nd=1, extra_coords=None):
-        """DataArray in wavespectra convention with symbolic extents for every dim"""
+                 freq_positive=True, min_nf=1, min_nd=1, extra_coords=None, fixed=None, dir_coord=None):
+        """DataArray in wavespectra convention with symbolic extents for every dim
+        (fixed: {dim: n} makes an extent concrete = bounded in shape)"""
         ext_ = {}
         for d in dims:
             n = {"freq": "NF", "dir": "ND"}.get(d, "N" + d)
+            if fixed and d in fixed:
+                ext_[d] = Sym(int(fixed[d]))
+                continue
             ext_[d] = self.int(n, {"freq": min_nf, "dir": min_nd}.get(d, 1))
         Earr = self.array(name, tuple(ext_[d] for d in dims), nonneg=nonneg)
         coords = {}
@@ -342,7 +346,9 @@ class VCtx:
             if d == "freq":
                 c = self.array("f", (ext_[d],), sorted_inc=True, positive=freq_positive)
             elif d == "dir":
-                if uniform_dir:
+                if dir_coord is not None:
+                    c = dir_coord
+                elif uniform_dir:
                     th0 = self.real("th0", 0, 360)
                     dth = self.real("dth", 0, 360, strict=True)
                     c = A.Arr((ext_[d],), lambda idx, th0=th0, dth=dth: th0 + dth * idx[0], "f")
@@ -533,13 +539,16 @@ class CCtx:
         return real_np.array(self.env[name])
 
     def spectrum(self, dims=("pos", "freq", "dir"), name="E", nonneg=True, uniform_dir=False,
-                 freq_positive=True, min_nf=1, min_nd=1, extra_coords=None):
+                 freq_positive=True, min_nf=1, min_nd=1, extra_coords=None, fixed=None, dir_coord=None):
         import xarray as xr
 
         ext_ = {}
         for d in dims:
             n = {"freq": "NF", "dir": "ND"}.get(d, "N" + d)
             lo = {"freq": min_nf, "dir": min_nd}.get(d, 1)
+            if fixed and d in fixed:
+                ext_[d] = int(fixed[d])
+                continue
             ext_[d] = self.int(n, lo, lo + 5)
         Earr = self.array(name, tuple(ext_[d] for d in dims), nonneg=nonneg)
         coords = {}
@@ -547,7 +556,9 @@ class CCtx:
             if d == "freq":
                 coords[d] = self.array("f", (ext_[d],), sorted_inc=True, positive=freq_positive)
             elif d == "dir":
-                if uniform_dir:
+                if dir_coord is not None:
+                    coords[d] = real_np.asarray(dir_coord, dtype=float)
+                elif uniform_dir:
                     th0 = self.real("th0", 0, 360)
                     dth = self.real("dth", 0, 360, strict=True)
                     coords[d] = th0 + dth * real_np.arange(ext_[d])
